@@ -23,7 +23,9 @@ DEFAULT_TOL = ("ulp", 0)
 RULE = ("family nm: 8 cost families x seeds in/on/over the bounds x 7 iteration caps x 5 tolerances; family auto: 11 crystals x 5 PM types "
         "x in-window wavelengths x orientations x L 1-30 mm x T 0-100 C x theta_s in {0} u [0,0.05] (period), plus a targeted stream "
         "within 1e-7..3e-2 rad of a phase-matching angle, an edge stream placing the needed period at L + {-0.5, 0.2, 0.7, 1.5} um and a "
-        "steep-idler stream (signal 2-40 % above the pump wavelength, theta_s 0.005-0.05; n/10 cases); "
+        "steep-idler stream (signal 2-40 % above the pump wavelength, theta_s 0.005-0.05; n/10 cases), a near-optic-axis stream (crystal "
+        "theta 0 or 1e-6..3e-2, theta_s 0 or 1e-5..5e-2; n/20) and n/15 route sessions on one SPDC object (every route that returns the "
+        "optimum poling period, after histories); "
         "11 crystals x e->oo/eo/oe x azimuths x in-window wavelengths, collinear, PRIOR crystal angle in {180, 160, -75, -179, 0} deg u (-180,180] "
         "(angle, n/6 cases; 1/3 of them also through assign_optimum_theta, SPDC::with_optimum_crystal_theta, try_as_optimum; "
         "statement clause + bit-for-bit independence of the prior angle on every route); n/25 cases through the SPDCConfig "
